@@ -341,7 +341,7 @@ __strf_reset_long_mon(void)
 static inline void
 __strf_reset_abbr_mon(void)
 {
-	if (dut_abbr_mon != __abbr_mon) {
+	if (duf_abbr_mon != __abbr_mon) {
 		free(deconst(duf_abbr_mon));
 	}
 	duf_abbr_mon = __abbr_mon;
@@ -359,7 +359,7 @@ __strf_set_long_wday(struct lst_s *new)
 static void
 __strf_set_abbr_wday(struct lst_s *new)
 {
-	__strp_reset_abbr_wday();
+	__strf_reset_abbr_wday();
 	duf_abbr_wday = new->s;
 	return;
 }
@@ -367,7 +367,7 @@ __strf_set_abbr_wday(struct lst_s *new)
 static void
 __strf_set_long_mon(struct lst_s *new)
 {
-	__strp_reset_long_mon();
+	__strf_reset_long_mon();
 	duf_long_mon = new->s;
 	return;
 }
@@ -375,7 +375,7 @@ __strf_set_long_mon(struct lst_s *new)
 static void
 __strf_set_abbr_mon(struct lst_s *new)
 {
-	__strp_reset_abbr_mon();
+	__strf_reset_abbr_mon();
 	duf_abbr_mon = new->s;
 	return;
 }
